@@ -440,7 +440,8 @@ GssvxVerdict(ev, sc) ==
         \* (finiteness is demanded when the driver did not warn that the matrix is singular to working precision)
         \cup (IF refOn /\ condOn /\ info = 0 /\ ~rcNaN /\ (\E k \in 1..ev.nrhs : ~FiniteNonNeg(ev.ferr[k]) \/ ~FiniteNonNeg(ev.berr[k])) THEN {"C13.error_bounds_not_finite"} ELSE {})
         \* (a returned X that is not finite has no backward error: that is a matter of C01 / C05 and of the type's range)
-        \cup (IF refOn /\ xfinite /\ (\E k \in 1..ev.nrhs : (Len(ev.ferr[k]) = 5 /\ ev.ferr[k][5] = 99999) \/ (Len(ev.berr[k]) = 5 /\ ev.berr[k][5] = 99999) \/ ev.ferr[k][1] < 0 \/ ev.berr[k][1] < 0)
+        \* (FERR comes from the same estimator as rcond: when rcond is not a number -- finding 9.16 -- FERR is not either)
+        \cup (IF refOn /\ xfinite /\ (\E k \in 1..ev.nrhs : (~(condOn /\ rcNaN) /\ Len(ev.ferr[k]) = 5 /\ ev.ferr[k][5] = 99999) \/ (Len(ev.berr[k]) = 5 /\ ev.berr[k][5] = 99999) \/ ev.ferr[k][1] < 0 \/ ev.berr[k][1] < 0)
               THEN {"C13.error_bounds_nan_or_negative"} ELSE {})
         \cup (IF refOn /\ ty \in {"d", "z"} /\ fact # 3 /\ fv.d2 /\ sv.allexact /\ (\E k \in 1..ev.nrhs : ev.berr[k] # <<0, 0>>)
               THEN {"C13.berr_nonzero_for_exact_solution"} ELSE {})
